@@ -165,14 +165,22 @@ impl StateApplyManager {
                 node_addr: Some(header.node_addrs.clone()),
             });
             //the installed snapshot replaces the log prefix this node never applied: load it into the running state machine
+            let last_index = header.last_index;
             if let Some(data_wrap) = data_wrap {
                 Self::do_load_snapshot(data_wrap, reader).await?;
             }
 
-            Ok(())
+            Ok(last_index)
         }
         .into_actor(self)
-        .map(|_r: anyhow::Result<()>, _act, _ctx| {})
+        .map(|r: anyhow::Result<u64>, act, _ctx| {
+            //the state machine now contains everything up to the snapshot's last index
+            if let Ok(last_index) = r {
+                if act.last_applied_log < last_index {
+                    act.last_applied_log = last_index;
+                }
+            }
+        })
         .wait(ctx);
     }
 
@@ -394,8 +402,51 @@ impl Handler<StateApplyRequest> for StateApplyManager {
             }
              */
             StateApplyRequest::ApplyBatchRequest(requests) => {
+                let pre_applied_log = self.last_applied_log;
+                let first_index = requests.first().map(|e| e.index).unwrap_or_default();
                 if let Some(req) = requests.last() {
                     self.last_applied_log = req.index;
+                }
+                if first_index > pre_applied_log + 1 {
+                    if let (Some(log_manager), Some(index_manager), Some(data_wrap)) = (
+                        self.log_manager.clone(),
+                        self.index_manager.clone(),
+                        self.data_wrap.clone(),
+                    ) {
+                        //the raft core hands a follower only the entries it has cached since the last election:
+                        //committed entries received before it (already in the log, not applied yet) come first
+                        let loader = Arc::new(LogRecordLoaderInstance::new(
+                            data_wrap,
+                            index_manager.clone(),
+                        ));
+                        let last_applied_log = self.last_applied_log;
+                        async move {
+                            log_manager
+                                .send(RaftLogManagerAsyncRequest::Load {
+                                    start: pre_applied_log + 1,
+                                    end: first_index,
+                                    loader,
+                                })
+                                .await??;
+                            Ok(())
+                        }
+                        .into_actor(self)
+                        .map(move |r: anyhow::Result<()>, act, _ctx| {
+                            if let Err(e) = r {
+                                log::error!("load the entries before a replicated batch error,{:?}", e);
+                            }
+                            for request in requests.into_iter() {
+                                act.apply_request_to_state_machine(request).ok();
+                            }
+                            index_manager.do_send(
+                                super::raftindex::RaftIndexRequest::SaveLastAppliedLog(
+                                    last_applied_log,
+                                ),
+                            );
+                        })
+                        .wait(ctx);
+                        return Ok(StateApplyResponse::None);
+                    }
                 }
                 for request in requests.into_iter() {
                     self.apply_request_to_state_machine(request)?;
